@@ -2,7 +2,7 @@ package tls
 
 //verif:harness C22 alps_server_parameters unwind=400
 //verif:expect accepted rejected
-//verif:doc utlsReadServerParameters from an arbitrary state: server EncryptedExtensions carrying application settings (0..2 arbitrary bytes) on either ALPS code point or none, negotiated version 1.2/1.3, negotiated ALPN "h2" / "" (EncryptedExtensions.alpnProtocol, as readServerParameters stores it in clientProtocol), client ApplicationSettings configured for h2: the server's settings are exposed as PeerApplicationSettings; settings below TLS 1.3 or without ALPN are rejected; the client's own settings for the negotiated protocol are selected for its EncryptedExtensions.
+//verif:doc utlsReadServerParameters from an arbitrary state: server EncryptedExtensions carrying application settings (0..2 arbitrary bytes; thorough 0..7) on either ALPS code point or none, negotiated version 1.2/1.3, negotiated ALPN "h2" / "" (EncryptedExtensions.alpnProtocol, as readServerParameters stores it in clientProtocol), client ApplicationSettings configured for h2: the server's settings are exposed as PeerApplicationSettings; settings below TLS 1.3 or without ALPN are rejected; the client's own settings for the negotiated protocol are selected for its EncryptedExtensions.
 func zzC22AlpsServerParameters() {
 	mine := []byte{0xaa, 0xbb}
 	cfg := &Config{ApplicationSettings: map[string][]byte{"h2": mine}}
@@ -16,7 +16,7 @@ func zzC22AlpsServerParameters() {
 	c.clientProtocol = proto // set by readServerParameters from EncryptedExtensions.alpnProtocol
 	ee := &encryptedExtensionsMsg{alpnProtocol: proto}
 	cp := []uint16{0, 17513, 17613}[verifChoice("codepoint", 3)]
-	srv := verifBytes("server-settings", verifChoice("slen", 3))
+	srv := verifBytes("server-settings", verifChoice("slen", zzTierN(3, 8)))
 	ee.utls.applicationSettingsCodepoint = cp
 	if cp != 0 {
 		ee.utls.applicationSettings = srv
@@ -59,12 +59,12 @@ func zzStubWriteHandshakeRecord(c *Conn, msg handshakeMessage, transcript transc
 //verif:harness C22 alps_client_encrypted_extensions unwind=400
 //verif:stub (*utls.Conn).writeHandshakeRecord zzStubWriteHandshakeRecord
 //verif:expect end
-//verif:doc sendClientEncryptedExtensions: with ALPS negotiated on either code point and arbitrary local settings (0..3 bytes) exactly one EncryptedExtensions message is written, into the handshake transcript, whose reference parse is (code point, settings); nothing is written when ALPS was not negotiated; utlsClientEncryptedExtensionsMsg marshal/unmarshal round-trips.
+//verif:doc sendClientEncryptedExtensions: with ALPS negotiated on either code point and arbitrary local settings (0..3 bytes; thorough 0..8) exactly one EncryptedExtensions message is written, into the handshake transcript, whose reference parse is (code point, settings); nothing is written when ALPS was not negotiated; utlsClientEncryptedExtensionsMsg marshal/unmarshal round-trips.
 func zzC22AlpsClientEncryptedExtensions() {
 	zzWrittenMsgs, zzWrittenTranscripts = nil, nil
 	c := &Conn{config: &Config{}}
 	cp := []uint16{0, 17513, 17613}[verifChoice("codepoint", 3)]
-	local := verifBytes("local", verifChoice("llen", 4))
+	local := verifBytes("local", verifChoice("llen", zzTierN(4, 9)))
 	c.utls.applicationSettingsCodepoint = cp
 	c.utls.localApplicationSettings = local
 	tr := &zzUFHash{}
